@@ -26,7 +26,7 @@ for p in props:
         'level_claimed': {
             'category': meta['level'],
             'text': MM.LEVEL_TEXT.get(pid) or (
-                'Decides the clauses ' + '; '.join(meta.get('decided', [])) +
+                'Decides the clauses ' + '; '.join(['D0 names resolve in the anchored modules'] + list(meta.get('decided', []))) +
                 ' on every path/instance of the current tree. A pass means every decided clause holds; it never '
                 'means the whole behavioural statement was established. Not decided: ' +
                 '; '.join(meta.get('undecided', []))),
